@@ -52,6 +52,10 @@ GROUPS = [
 
 # list / subscript / implicit-this spellings (docs/language.md): (property or "handler", text, accepted?)
 LISTS = [
+    # argument counts of the built-in functions
+    ("text", "qsTr(\"S\", 42)", False), ("text", "qsTr(\"F: %1\", a.text)", False), ("handler", "a.text = qsTr(\"C\", a.ival, 1.5, a)", False), ("text", "qsTr()", False),
+    ("text", "qsTr(\"ok\")", True), ("text", "qsTr(a.text)", False), ("ival", "Math.max(1, 2, 3)", False), ("ival", "Math.max(a.ival)", False), ("ival", "Math.min()", False),
+    ("flag", "a.text.isEmpty(1)", False), ("text", "qsTr(\"a\", \"b\")", False), ("handler", "console.log()", True), ("handler", "console.log(a.ival, a.text, a.flag)", True),
     # comments are no construct of their own: between the clauses of a switch as anywhere else
     ("ival", "{ switch (a.ival) {\n case 0: return 1;\n // between clauses\n case 1: return 2;\n /* before default */ default: return 3 } }", True),
     ("ival", "{ switch (a.ival) { // after the brace\n case 0: return 1; default: return 2 // before the brace\n } }", True),
